@@ -197,7 +197,7 @@ def run(ctx):
     for i in range(n):
         rng = ctx.sub_rng(i)
         kinds, grids, obs, n_mech, psi, sig = gen_case(rng)
-        run_case(ctx, chi, kinds, grids, obs, n_mech, psi, sig, i)
+        ctx.guard(run_case, ctx, chi, kinds, grids, obs, n_mech, psi, sig, i)
 
 
 def replay(ctx, data):
